@@ -34,6 +34,7 @@ type c12Delay struct {
 }
 
 type c12OpCtl struct {
+	mu     sync.Mutex // the actions of one event run concurrently and share the request's context (and so this object)
 	delays []c12Delay
 	seen   map[string]int
 	jitter *rand.Rand // random 0..jitterUs pause around storage calls (stress)
@@ -54,19 +55,27 @@ func (d *delayStore) pause(ctx *core.Context, op, when string) {
 		return
 	}
 	key := op + "/" + when
+	ctl.mu.Lock()
 	ctl.seen[key]++
+	nth := ctl.seen[key]
+	choice, us := -1, 0
+	if ctl.jitter != nil && ctl.jitUs > 0 {
+		choice = ctl.jitter.Intn(3)
+		if choice == 0 {
+			us = ctl.jitter.Intn(ctl.jitUs)
+		}
+	}
+	ctl.mu.Unlock()
 	for _, dl := range ctl.delays {
-		if dl.Op == op && dl.When == when && (dl.Nth == 0 || dl.Nth == ctl.seen[key]) {
+		if dl.Op == op && dl.When == when && (dl.Nth == 0 || dl.Nth == nth) {
 			time.Sleep(time.Duration(dl.Us) * time.Microsecond)
 		}
 	}
-	if ctl.jitter != nil && ctl.jitUs > 0 {
-		switch ctl.jitter.Intn(3) {
-		case 0:
-			time.Sleep(time.Duration(ctl.jitter.Intn(ctl.jitUs)) * time.Microsecond)
-		case 1:
-			runtime.Gosched()
-		}
+	switch choice {
+	case 0:
+		time.Sleep(time.Duration(us) * time.Microsecond)
+	case 1:
+		runtime.Gosched()
 	}
 }
 
